@@ -1,4 +1,6 @@
-(** C07 — bare-LF line ends: the printed request with any mix of CRLF / LF line ends parses to the same request. *)
+(** C07 — the general header line [name ":" OWS value OWS (CRLF | LF)]: a printed request with any optional
+    whitespace (spaces, tabs) around the values and any mix of CRLF / bare-LF line ends parses to the same request.
+    The CRLF-only and the SP-only printers are instances. *)
 From KV Require Export Bytes RustInt Http1Read Http1ReadProofs Http1ReadParseProofs.
 From Coq Require Import ZifyBool ZifyNat ZifyN.
 Open Scope N_scope.
@@ -15,196 +17,272 @@ Proof. induction hs as [|h hs IH]; [reflexivity|]. cbn [print_hlines_e hd tl map
 Lemma print_head_e_crlf g : print_head_e false [] false g = print_head g.
 Proof. unfold print_head_e, print_head. rewrite print_hlines_e_crlf. reflexivity. Qed.
 
-(** * One header line with either line end *)
+(** * Optional whitespace *)
 
-Lemma value_ok_head' v c post : value_ok v = true -> N.eqb c SP = false ->
-  match v ++ c :: post with c' :: _ => N.eqb c' SP = false | [] => False end.
+Lemma pno_chunk : forall lead x, forallb ows lead = true ->
+  (match x with c :: _ => ows c = false | [] => False end) ->
+  position_non_ows (lead ++ x) = Some (length lead).
 Proof.
-  unfold value_ok. intros H Hc. apply andb_true_iff in H as [_ H]. destruct v as [|c0 v]; cbn [app]; [exact Hc|].
-  apply negb_true_iff in H. exact H.
+  induction lead as [|c lead IH]; intros x Hl Hx; cbn [app length].
+  - destruct x as [|c x]; [contradiction|]. cbn [position_non_ows]. rewrite Hx. reflexivity.
+  - cbn [forallb] in Hl. apply andb_true_iff in Hl as [Hc Hl]. cbn [position_non_ows]. rewrite Hc.
+    rewrite (IH x Hl Hx). reflexivity.
 Qed.
 
-Lemma eol_head lf post : exists c r, eol lf ++ post = c :: r /\ N.eqb c SP = false.
+Lemma trim_end_stop all vs ve :
+  (vs < ve -> match nth_error all (ve - 1) with Some c => ows c = false | None => True end) ->
+  trim_end all vs ve = ve.
+Proof.
+  intros H. destruct ve as [|p]; [reflexivity|]. cbn [trim_end].
+  destruct (Nat.ltb vs (S p)) eqn:E; cbn [andb]; [|reflexivity]. apply Nat.ltb_lt in E. specialize (H E).
+  replace (S p - 1) with p in H by qlia. destruct (nth_error all p) as [c|]; [rewrite H|]; reflexivity.
+Qed.
+
+(** trailing whitespace is trimmed up to the last byte of the value (which is not whitespace) *)
+Lemma trim_end_spec (A value : bytes) : forall trail R,
+  forallb ows trail = true -> (forall r c, value = r ++ [c] -> ows c = false) ->
+  trim_end (A ++ value ++ trail ++ R) (length A) (length A + length value + length trail) = length A + length value.
+Proof.
+  intros trail. induction trail as [|c t IH] using rev_ind; intros R Ht Hv.
+  - cbn [length]. rewrite Nat.add_0_r. apply trim_end_stop. intros Hlt.
+    destruct value as [|v0 value'] using rev_ind; [cbn [length] in Hlt; qlia|]. clear IHvalue'.
+    rewrite app_length in *. cbn [length] in *.
+    replace (length A + (length value' + 1) - 1) with (length A + length value') by qlia.
+    rewrite nth_error_app2 by qlia. replace (length A + length value' - length A) with (length value') by qlia.
+    rewrite <- app_assoc. rewrite nth_error_app2 by qlia. rewrite Nat.sub_diag. cbn [app nth_error].
+    apply (Hv value' v0). reflexivity.
+  - rewrite forallb_app in Ht. apply andb_true_iff in Ht as [Ht Hc]. cbn [forallb] in Hc. rewrite andb_true_r in Hc.
+    rewrite app_length. cbn [length].
+    replace (length A + length value + (length t + 1)) with (S (length A + length value + length t)) by qlia.
+    cbn [trim_end].
+    assert (Hlt : Nat.ltb (length A) (S (length A + length value + length t)) = true) by (apply Nat.ltb_lt; qlia).
+    rewrite Hlt. cbn [andb].
+    assert (Hn : nth_error (A ++ value ++ (t ++ [c]) ++ R) (length A + length value + length t) = Some c).
+    { rewrite nth_error_app2 by qlia. replace (length A + length value + length t - length A) with (length value + length t) by qlia.
+      rewrite nth_error_app2 by qlia. replace (length value + length t - length value) with (length t) by qlia.
+      rewrite <- app_assoc. rewrite nth_error_app2 by qlia. rewrite Nat.sub_diag. reflexivity. }
+    rewrite Hn, Hc.
+    replace (A ++ value ++ (t ++ [c]) ++ R) with (A ++ value ++ t ++ ([c] ++ R)) by (rewrite <- !app_assoc; reflexivity).
+    apply IH; assumption.
+Qed.
+
+(** * One header line in its general form *)
+
+Lemma eol_head lf post : exists c r, eol lf ++ post = c :: r /\ ows c = false.
 Proof. destruct lf; cbn [eol app]; eexists; eexists; split; reflexivity. Qed.
 
 Lemma prev_not_cr (pre X rest : bytes) : forallb no_crlf X = true -> X <> [] ->
   prev_is_cr (pre ++ X ++ rest) (length pre + length X) = false.
 Proof.
   intros HX Hne. unfold prev_is_cr.
-  destruct X as [|x0 X']; [contradiction|]. cbn [length]. replace (length pre + S (length X')) with (S (length pre + length X')) by lia.
-  rewrite nth_error_app2 by lia. replace (length pre + length X' - length pre) with (length X') by lia.
-  rewrite nth_error_app1 by (cbn [length]; lia).
+  destruct X as [|x0 X']; [contradiction|]. cbn [length]. replace (length pre + S (length X')) with (S (length pre + length X')) by qlia.
+  rewrite nth_error_app2 by qlia. replace (length pre + length X' - length pre) with (length X') by qlia.
+  rewrite nth_error_app1 by (cbn [length]; qlia).
   destruct (nth_error (x0 :: X') (length X')) as [c|] eqn:E; [|reflexivity].
   apply nth_error_In in E. rewrite forallb_forall in HX. apply HX in E. apply no_crlf_spec in E. tauto.
 Qed.
 
-Lemma hdr_line_e all pre name k value lfl post :
-  all = pre ++ name ++ [COLON] ++ repeat SP k ++ value ++ eol lfl ++ post ->
-  name_ok name = true -> value_ok value = true ->
+Lemma ows_all_no_crlf l : forallb ows l = true -> forallb no_crlf l = true.
+Proof. apply forallb_imp. apply ows_no_crlf. Qed.
+
+Lemma hdr_line_d all pre name lead value trail lfl post :
+  all = pre ++ name ++ [COLON] ++ lead ++ value ++ trail ++ eol lfl ++ post ->
+  name_ok name = true -> value_ok value = true -> forallb ows lead = true -> forallb ows trail = true ->
+  (value = [] -> trail = []) ->
   forall lf ne vs m,
-  hdr_loop all (name ++ [COLON] ++ repeat SP k ++ value ++ eol lfl ++ post) (length pre) false lf (length pre) ne vs m =
-  hdr_loop all post (length pre + (length name + 1 + k + length value + length (eol lfl))) false 1
-           (length pre + (length name + 1 + k + length value + length (eol lfl)))
-           (length pre + length name) (length pre + length name + 1 + k)
+  hdr_loop all (name ++ [COLON] ++ lead ++ value ++ trail ++ eol lfl ++ post) (length pre) false lf (length pre) ne vs m =
+  hdr_loop all post (length pre + (length name + 1 + length lead + length value + length trail + length (eol lfl))) false 1
+           (length pre + (length name + 1 + length lead + length value + length trail + length (eol lfl)))
+           (length pre + length name) (length pre + length name + 1 + length lead)
            (hm_insert (lower name) value m).
 Proof.
-  intros Hall Hn Hv lf ne vs m.
+  intros Hall Hn Hv Hlead Htrail Hempty lf ne vs m.
   pose proof (name_ok_header_name _ Hn) as Hhn.
   assert (Hn' := Hn). unfold name_ok in Hn'. apply andb_true_iff in Hn' as [Hn' _]. apply andb_true_iff in Hn' as [Hnn Hnt].
   destruct name as [|c0 name']; [discriminate|]. assert (Hnt' := Hnt). cbn [forallb] in Hnt. apply andb_true_iff in Hnt as [Hc0 Hnt].
   set (name := c0 :: name') in *.
   set (P := length pre). set (pos1 := P + length name).
+  set (K := length lead). set (V := length value). set (T := length trail).
   unfold name at 1. rewrite hdr_name_chunk by assumption.
-  replace (P + S (length name')) with pos1 by (subst pos1 name; cbn [length]; lia).
+  replace (P + S (length name')) with pos1 by (subst pos1 name; cbn [length]; qlia).
   cbn [app]. rewrite hdr_step_colon.
-  assert (Hall1 : all = (pre ++ name ++ [COLON]) ++ repeat SP k ++ value ++ eol lfl ++ post).
+  assert (Hall1 : all = (pre ++ name ++ [COLON]) ++ lead ++ value ++ trail ++ eol lfl ++ post).
   { rewrite Hall. rewrite <- !app_assoc. reflexivity. }
   assert (Hl1 : length (pre ++ name ++ [COLON]) = S pos1).
-  { rewrite !app_length. cbn [length]. subst pos1 P. lia. }
+  { rewrite !app_length. cbn [length]. subst pos1 P. qlia. }
   assert (Hname : slice_get P pos1 all = Some name).
   { rewrite Hall. apply slice_get_mid; subst pos1 P; reflexivity. }
-  assert (Hall2 : all = (pre ++ name ++ [COLON] ++ repeat SP k) ++ value ++ eol lfl ++ post).
-  { rewrite Hall. rewrite <- !app_assoc. reflexivity. }
-  assert (Hl2 : length (pre ++ name ++ [COLON] ++ repeat SP k) = pos1 + 1 + k).
-  { rewrite !app_length, repeat_length. cbn [length]. subst pos1 P. lia. }
-  assert (Hval : slice_chk (pos1 + 1 + k) (pos1 + 1 + k + length value) all = Ok value).
+  set (A := pre ++ name ++ [COLON] ++ lead).
+  assert (Hall2 : all = A ++ value ++ trail ++ eol lfl ++ post).
+  { rewrite Hall. unfold A. rewrite <- !app_assoc. reflexivity. }
+  assert (Hl2 : length A = pos1 + 1 + K).
+  { unfold A. rewrite !app_length. cbn [length]. subst pos1 P K. qlia. }
+  assert (Hval : slice_chk (pos1 + 1 + K) (pos1 + 1 + K + V) all = Ok value).
   { rewrite Hall2. apply slice_chk_mid; [symmetry; exact Hl2|reflexivity]. }
-  set (X := name ++ [COLON] ++ repeat SP k ++ value).
-  assert (HXc : forallb no_crlf X = true).
-  { unfold X. rewrite !forallb_app. rewrite (forallb_imp tchar no_crlf _ tchar_no_crlf Hnt').
-    rewrite forallb_repeat by reflexivity. rewrite (value_ok_no_crlf _ Hv). reflexivity. }
-  assert (HXl : length X = length name + 1 + k + length value).
-  { unfold X. rewrite !app_length, repeat_length. cbn [length]. lia. }
-  assert (Hall3 : all = pre ++ X ++ eol lfl ++ post).
-  { rewrite Hall. unfold X. rewrite <- !app_assoc. reflexivity. }
-  destruct (eol_head lfl post) as [ce [re [Heol Hce]]].
-  pose proof (value_ok_head' value ce re Hv Hce) as Hhead. rewrite <- Heol in Hhead.
+  assert (Htrim : trim_end all (pos1 + 1 + K) (pos1 + 1 + K + V + T) = pos1 + 1 + K + V).
+  { rewrite Hall2, <- Hl2. apply trim_end_spec; [exact Htrail|]. intros r c E. exact (value_ok_last _ _ _ Hv E). }
+  set (X := name ++ [COLON] ++ lead ++ value ++ trail).
   pose proof (value_ok_hvalue _ Hv) as Hhv.
   pose proof (value_ok_no_crlf _ Hv) as Hvc.
-  assert (Htail : forall vs0, vs0 = pos1 + 1 + k ->
-    hdr_loop all (eol lfl ++ post) (pos1 + 1 + k + length value) true 0 P pos1 vs0 m =
-    hdr_loop all post (P + (length name + 1 + k + length value + length (eol lfl))) false 1
-      (P + (length name + 1 + k + length value + length (eol lfl))) pos1 (pos1 + 1 + k) (hm_insert (lower name) value m)).
+  assert (HXc : forallb no_crlf X = true).
+  { unfold X. rewrite !forallb_app. rewrite (forallb_imp tchar no_crlf _ tchar_no_crlf Hnt').
+    rewrite (ows_all_no_crlf _ Hlead), Hvc, (ows_all_no_crlf _ Htrail). reflexivity. }
+  assert (HXl : length X = length name + 1 + K + V + T).
+  { unfold X. rewrite !app_length. cbn [length]. subst K V T. qlia. }
+  assert (Hall3 : all = pre ++ X ++ eol lfl ++ post).
+  { rewrite Hall. unfold X. rewrite <- !app_assoc. reflexivity. }
+  (* the first byte after the leading whitespace is not whitespace *)
+  assert (Hhead : match value ++ trail ++ eol lfl ++ post with c :: _ => ows c = false | [] => False end).
+  { destruct value as [|v0 value'] eqn:Ev.
+    - rewrite (Hempty eq_refl). cbn [app]. destruct (eol_head lfl post) as [ce [re [Heol Hce]]]. rewrite Heol. exact Hce.
+    - cbn [app]. exact (value_ok_first _ _ _ Hv eq_refl). }
+  assert (Htail : forall vs0, vs0 = pos1 + 1 + K ->
+    hdr_loop all (eol lfl ++ post) (pos1 + 1 + K + V + T) true 0 P pos1 vs0 m =
+    hdr_loop all post (P + (length name + 1 + K + V + T + length (eol lfl))) false 1
+      (P + (length name + 1 + K + V + T + length (eol lfl))) pos1 (pos1 + 1 + K) (hm_insert (lower name) value m)).
   { intros vs0 ->. destruct lfl; cbn [eol app length].
-    - (* bare LF *)
-      rewrite hdr_step_lf_value. rewrite Hname, Hhn.
-      assert (Hncr : prev_is_cr all (pos1 + 1 + k + length value) = false).
-      { rewrite Hall3. replace (pos1 + 1 + k + length value) with (length pre + length X) by (subst pos1 P; lia).
+    - rewrite hdr_step_lf_value. rewrite Hname, Hhn.
+      assert (Hncr : prev_is_cr all (pos1 + 1 + K + V + T) = false).
+      { rewrite Hall3. replace (pos1 + 1 + K + V + T) with (length pre + length X) by (subst pos1 P; qlia).
         apply prev_not_cr; [exact HXc|]. unfold X, name. discriminate. }
-      rewrite Hncr, Hval, Hhv.
-      replace (S (pos1 + 1 + k + length value)) with (P + (length name + 1 + k + length value + 1)) by (subst pos1; lia).
+      rewrite Hncr, Htrim, Hval, Hhv.
+      replace (S (pos1 + 1 + K + V + T)) with (P + (length name + 1 + K + V + T + 1)) by (subst pos1; qlia).
       reflexivity.
     - rewrite hdr_step_cr, hdr_step_lf_value. rewrite Hname, Hhn.
-      assert (Hcr : prev_is_cr all (S (pos1 + 1 + k + length value)) = true).
+      assert (Hcr : prev_is_cr all (S (pos1 + 1 + K + V + T)) = true).
       { unfold prev_is_cr. rewrite Hall3. rewrite app_assoc. cbn [eol app].
-        rewrite nth_error_mid by (rewrite app_length; subst pos1 P; lia). reflexivity. }
+        rewrite nth_error_mid by (rewrite app_length; subst pos1 P; qlia). reflexivity. }
       rewrite Hcr.
-      replace (S (pos1 + 1 + k + length value) - 1) with (pos1 + 1 + k + length value) by lia.
-      rewrite Hval, Hhv.
-      replace (S (S (pos1 + 1 + k + length value))) with (P + (length name + 1 + k + length value + 2)) by (subst pos1; lia).
+      replace (S (pos1 + 1 + K + V + T) - 1) with (pos1 + 1 + K + V + T) by qlia.
+      rewrite Htrim, Hval, Hhv.
+      replace (S (S (pos1 + 1 + K + V + T))) with (P + (length name + 1 + K + V + T + 2)) by (subst pos1; qlia).
       reflexivity. }
-  destruct k as [|k'].
-  - assert (Hnsp : next_is_space all pos1 = false).
-    { unfold next_is_space. rewrite Hall1. cbn [repeat app].
-      destruct (value ++ eol lfl ++ post) as [|c x] eqn:Ex; [contradiction|].
+  destruct lead as [|l0 lead'] eqn:El.
+  - assert (Hnsp : next_is_ows all pos1 = false).
+    { unfold next_is_ows. rewrite Hall1. cbn [app].
+      destruct (value ++ trail ++ eol lfl ++ post) as [|c x] eqn:Ex; [contradiction|].
       rewrite nth_error_mid by (symmetry; exact Hl1). exact Hhead. }
-    rewrite Hnsp. cbn [repeat app].
-    rewrite hdr_value_chunk by exact Hvc.
-    replace (S pos1 + length value) with (pos1 + 1 + 0 + length value) by lia.
-    apply Htail. lia.
-  - assert (Hnsp : next_is_space all pos1 = true).
-    { unfold next_is_space. rewrite Hall1. cbn [repeat app].
-      rewrite nth_error_mid by (symmetry; exact Hl1). reflexivity. }
-    rewrite Hnsp. cbn [repeat app]. rewrite hdr_step_space.
-    assert (Hvs : value_start_from all (S pos1) = S pos1 + S k').
+    rewrite Hnsp. cbn [app].
+    rewrite (app_assoc value trail). rewrite hdr_value_chunk by (rewrite forallb_app, Hvc, (ows_all_no_crlf _ Htrail); reflexivity).
+    rewrite app_length. fold V T. subst K. cbn [length].
+    replace (S pos1 + (V + T)) with (pos1 + 1 + 0 + V + T) by qlia.
+    apply Htail. cbn [length]. qlia.
+  - cbn [forallb] in Hlead. apply andb_true_iff in Hlead as [Hl0 Hlead'].
+    assert (Hnsp : next_is_ows all pos1 = true).
+    { unfold next_is_ows. rewrite Hall1. cbn [app].
+      rewrite nth_error_mid by (symmetry; exact Hl1). exact Hl0. }
+    rewrite Hnsp. cbn [app]. rewrite hdr_step_ows by exact Hl0.
+    assert (Hvs : value_start_from all (S pos1) = S pos1 + K).
     { unfold value_start_from. rewrite Hall1. rewrite skipn_mid by (symmetry; exact Hl1).
-      rewrite (pns_repeat (S k')) by exact Hhead. lia. }
-    rewrite Hvs. rewrite app_assoc.
-    rewrite hdr_value_chunk.
-    + rewrite app_length, repeat_length.
-      replace (S (S pos1) + (k' + length value)) with (pos1 + 1 + S k' + length value) by lia.
-      apply Htail. lia.
-    + rewrite forallb_app. rewrite forallb_repeat by reflexivity. exact Hvc.
+      rewrite pno_chunk; [subst K; qlia| |exact Hhead].
+      cbn [forallb]. rewrite Hl0, Hlead'. reflexivity. }
+    rewrite Hvs.
+    replace (lead' ++ value ++ trail ++ eol lfl ++ post) with ((lead' ++ value ++ trail) ++ eol lfl ++ post)
+      by (rewrite <- !app_assoc; reflexivity).
+    rewrite hdr_value_chunk
+      by (rewrite !forallb_app, (ows_all_no_crlf _ Hlead'), Hvc, (ows_all_no_crlf _ Htrail); reflexivity).
+    rewrite !app_length. fold V T. subst K. cbn [length].
+    replace (S (S pos1) + (length lead' + (V + T))) with (pos1 + 1 + S (length lead') + V + T) by qlia.
+    apply Htail. cbn [length]. qlia.
 Qed.
 
-Lemma print_hline_e_length lf h : length (print_hline_e lf h) = length (hl_name h) + 1 + hl_sp h + length (hl_value h) + length (eol lf).
-Proof. unfold print_hline_e. rewrite !app_length, repeat_length. cbn [length]. lia. Qed.
+(** * A block of header lines *)
 
-Lemma hdr_block_e : forall hs fl lb pre post lf ne vs m,
-  hlines_ok hs = true -> (hs <> [] \/ lf = 1) ->
-  hdr_loop (pre ++ (print_hlines_e fl hs ++ eol lb) ++ post) ((print_hlines_e fl hs ++ eol lb) ++ post)
-           (length pre) false lf (length pre) ne vs m =
-  Ok (hdr_fold m hs, length pre + length (print_hlines_e fl hs ++ eol lb)).
+Definition h_lead (d : deco) (h : hline) : bytes := repeat SP (hl_sp h) ++ d_pre d.
+
+Lemma print_hline_d_length d h :
+  length (print_hline_d d h) =
+  length (hl_name h) + 1 + length (h_lead d h) + length (hl_value h) + length (d_post d) + length (eol (d_lf d)).
+Proof. unfold print_hline_d, h_lead. rewrite !app_length. cbn [length]. qlia. Qed.
+
+Lemma deco_ok_facts d h : deco_ok d h = true ->
+  forallb ows (h_lead d h) = true /\ forallb ows (d_post d) = true /\ (hl_value h = [] -> d_post d = []).
 Proof.
-  induction hs as [|h hs IH]; intros fl lb pre post lf ne vs m Hok Hlf.
-  - destruct Hlf as [Hlf|Hlf]; [contradiction|]. subst lf. cbn [print_hlines_e app hdr_fold fold_left].
+  unfold deco_ok, h_lead. intros H. apply andb_true_iff in H as [H H3]. apply andb_true_iff in H as [H1 H2].
+  split; [rewrite forallb_app, forallb_repeat by reflexivity; exact H1|]. split; [exact H2|].
+  intros E. rewrite E in H3. cbn [null negb orb] in H3. destruct (d_post d); [reflexivity|discriminate].
+Qed.
+
+Lemma hdr_block_d : forall hs ds lb pre post lf ne vs m,
+  hlines_ok hs = true -> decos_ok ds hs = true -> (hs <> [] \/ lf = 1) ->
+  hdr_loop (pre ++ (print_hlines_d ds hs ++ eol lb) ++ post) ((print_hlines_d ds hs ++ eol lb) ++ post)
+           (length pre) false lf (length pre) ne vs m =
+  Ok (hdr_fold m hs, length pre + length (print_hlines_d ds hs ++ eol lb)).
+Proof.
+  induction hs as [|h hs IH]; intros ds lb pre post lf ne vs m Hok Hdk Hlf.
+  - destruct Hlf as [Hlf|Hlf]; [contradiction|]. subst lf. cbn [print_hlines_d app hdr_fold fold_left].
     destruct lb; cbn [eol app length].
-    + rewrite hdr_step_lf_end. f_equal. f_equal. lia.
-    + rewrite hdr_step_cr, hdr_step_lf_end. f_equal. f_equal. lia.
+    + rewrite hdr_step_lf_end. f_equal. f_equal. qlia.
+    + rewrite hdr_step_cr, hdr_step_lf_end. f_equal. f_equal. qlia.
   - cbn [hlines_ok forallb] in Hok. apply andb_true_iff in Hok as [Hh Hok]. apply andb_true_iff in Hh as [Hn Hv].
-    cbn [print_hlines_e hdr_fold fold_left].
-    set (B' := print_hlines_e (tl fl) hs ++ eol lb).
-    assert (Hrest : ((print_hline_e (hd false fl) h ++ print_hlines_e (tl fl) hs) ++ eol lb) ++ post =
-                    hl_name h ++ [COLON] ++ repeat SP (hl_sp h) ++ hl_value h ++ eol (hd false fl) ++ (B' ++ post)).
-    { unfold print_hline_e, B'. rewrite <- !app_assoc. reflexivity. }
+    cbn [decos_ok] in Hdk. apply andb_true_iff in Hdk as [Hd Hdk].
+    destruct (deco_ok_facts _ _ Hd) as [Hlead [Htrail Hempty]].
+    cbn [print_hlines_d hdr_fold fold_left].
+    set (d := hd deco0 ds) in *.
+    set (B' := print_hlines_d (tl ds) hs ++ eol lb).
+    assert (Hrest : ((print_hline_d d h ++ print_hlines_d (tl ds) hs) ++ eol lb) ++ post =
+                    hl_name h ++ [COLON] ++ h_lead d h ++ hl_value h ++ d_post d ++ eol (d_lf d) ++ (B' ++ post)).
+    { unfold print_hline_d, h_lead, B'. rewrite <- !app_assoc. reflexivity. }
     rewrite Hrest.
-    rewrite (hdr_line_e _ pre (hl_name h) (hl_sp h) (hl_value h) (hd false fl) (B' ++ post) eq_refl Hn Hv).
-    assert (Hall' : pre ++ hl_name h ++ [COLON] ++ repeat SP (hl_sp h) ++ hl_value h ++ eol (hd false fl) ++ (B' ++ post) =
-                    (pre ++ print_hline_e (hd false fl) h) ++ B' ++ post).
-    { unfold print_hline_e. rewrite <- !app_assoc. reflexivity. }
+    rewrite (hdr_line_d _ pre (hl_name h) (h_lead d h) (hl_value h) (d_post d) (d_lf d) (B' ++ post) eq_refl Hn Hv Hlead Htrail Hempty).
+    assert (Hall' : pre ++ hl_name h ++ [COLON] ++ h_lead d h ++ hl_value h ++ d_post d ++ eol (d_lf d) ++ (B' ++ post) =
+                    (pre ++ print_hline_d d h) ++ B' ++ post).
+    { unfold print_hline_d, h_lead. rewrite <- !app_assoc. reflexivity. }
     rewrite Hall'.
-    assert (Hlen : length pre + (length (hl_name h) + 1 + hl_sp h + length (hl_value h) + length (eol (hd false fl))) =
-                   length (pre ++ print_hline_e (hd false fl) h)).
-    { rewrite app_length, print_hline_e_length. lia. }
-    rewrite Hlen. unfold B'. rewrite IH; [|exact Hok|right; reflexivity].
+    assert (Hlen : length pre + (length (hl_name h) + 1 + length (h_lead d h) + length (hl_value h) + length (d_post d) + length (eol (d_lf d))) =
+                   length (pre ++ print_hline_d d h)).
+    { rewrite app_length, print_hline_d_length. qlia. }
+    rewrite Hlen. unfold B'. rewrite IH; [|exact Hok|exact Hdk|right; reflexivity].
     fold (hdr_fold (hm_insert (lower (hl_name h)) (hl_value h) m) hs).
-    f_equal. f_equal. rewrite !app_length. lia.
+    f_equal. f_equal. rewrite !app_length. qlia.
 Qed.
 
 (** * The whole head *)
 
-Lemma print_head_e_shape l0 fl lb g extra :
-  print_head_e l0 fl lb g ++ extra =
-  g_method g ++ SP :: g_target g ++ SP :: g_version g ++ eol l0 ++ (print_hlines_e fl (g_headers g) ++ eol lb) ++ extra.
-Proof. unfold print_head_e, g_version. rewrite <- !app_assoc. reflexivity. Qed.
+Lemma print_head_d_shape l0 ds lb g extra :
+  print_head_d l0 ds lb g ++ extra =
+  g_method g ++ SP :: g_target g ++ SP :: g_version g ++ eol l0 ++ (print_hlines_d ds (g_headers g) ++ eol lb) ++ extra.
+Proof. unfold print_head_d, g_version. rewrite <- !app_assoc. reflexivity. Qed.
 
-Lemma print_head_e_length l0 fl lb g :
-  length (print_head_e l0 fl lb g) =
-  length (g_method g) + 1 + length (g_target g) + 1 + 8 + length (eol l0) + length (print_hlines_e fl (g_headers g) ++ eol lb).
+Lemma print_head_d_length l0 ds lb g :
+  length (print_head_d l0 ds lb g) =
+  length (g_method g) + 1 + length (g_target g) + 1 + 8 + length (eol l0) + length (print_hlines_d ds (g_headers g) ++ eol lb).
 Proof.
-  unfold print_head_e. repeat rewrite app_length. cbn [length].
+  unfold print_head_d. repeat rewrite app_length. cbn [length].
   assert (Hl : length (if g_v11 g then v11 else v10) = 8) by (destruct (g_v11 g); reflexivity).
-  rewrite Hl. lia.
+  rewrite Hl. qlia.
 Qed.
 
-Lemma req_loop_print_e l0 fl lb g extra : greq_facts g ->
-  let all := print_head_e l0 fl lb g ++ extra in
+Lemma method_ok_facts g : greq_facts g -> method_ok (g_method g) = true.
+Proof.
+  intros F. unfold method_ok. rewrite (gf_mtok g F). destruct (g_method g) eqn:E; [exfalso; apply (gf_mnon g F); exact E|reflexivity].
+Qed.
+
+Lemma req_loop_print_d l0 ds lb g extra : greq_facts g -> decos_ok ds (g_headers g) = true ->
+  let all := print_head_d l0 ds lb g ++ extra in
   req_loop all all 0 RMethod [] 0 0 [] 0 =
   Ok (mk_scan (g_method g) (length (g_method g) + 1) (length (g_method g) + 1 + length (g_target g)) (g_version g)
-              (hdr_fold [] (g_headers g)) (S (length (print_head_e l0 fl lb g)))).
+              (hdr_fold [] (g_headers g)) (S (length (print_head_d l0 ds lb g)))).
 Proof.
-  intros F all. destruct F as [Hstart Hmlen Hmtok Htnon Htplain Hlines Hnodup].
+  intros F Hdk all. pose proof (method_ok_facts g F) as Hmok. destruct F as [Hmnon Hmlen Hmtok Htnon Htplain Hlines Hnodup].
   destruct (version_shape g) as [Hvc [Hvl Hvcode]].
-  set (block := print_hlines_e fl (g_headers g) ++ eol lb).
+  set (block := print_hlines_d ds (g_headers g) ++ eol lb).
   assert (Hall : all = g_method g ++ SP :: g_target g ++ SP :: g_version g ++ eol l0 ++ block ++ extra).
-  { unfold all, block. apply print_head_e_shape. }
+  { unfold all, block. apply print_head_d_shape. }
   set (M := length (g_method g)). set (T := length (g_target g)).
   rewrite Hall at 2.
-  rewrite req_method_chunk by (cbn [length]; assumption || lia). cbn [app Nat.add].
+  rewrite req_method_chunk by (cbn [length]; assumption || qlia). cbn [app Nat.add].
   rewrite req_step_method_sp.
   assert (Hm : slice_chk 0 M all = Ok (g_method g)).
   { rewrite Hall. apply (slice_chk_mid [] (g_method g)); reflexivity. }
-  fold M. rewrite Hm.
-  assert (Hmok : method_ok (g_method g) = true).
-  { unfold method_ok. rewrite Hmtok. destruct (g_method g) eqn:E; [exfalso; apply (valid_start_nonempty _ Hstart); reflexivity|reflexivity]. }
-  rewrite Hmok.
+  fold M. rewrite Hm. rewrite Hmok.
   destruct (g_target g) as [|t0 target'] eqn:Et; [contradiction|].
   cbn [forallb] in Htplain. apply andb_true_iff in Htplain as [Ht0 Htp].
   cbn [app]. rewrite req_step_path by exact Ht0. cbn [Nat.eqb].
-  rewrite req_path_chunk by (try assumption; lia).
+  rewrite req_path_chunk by (try assumption; qlia).
   rewrite req_step_path_sp.
-  destruct (Nat.eqb (S M) 0) eqn:E0; [apply Nat.eqb_eq in E0; lia|].
-  rewrite req_version_chunk by (cbn [length]; assumption || lia). cbn [app].
+  destruct (Nat.eqb (S M) 0) eqn:E0; [apply Nat.eqb_eq in E0; qlia|].
+  rewrite req_version_chunk by (cbn [length]; assumption || qlia). cbn [app].
   set (pe := S (S M) + length target').
   set (pv := S pe + length (g_version g)).
   set (pl := pv + length (eol l0)).
@@ -212,25 +290,25 @@ Proof.
     req_loop all (eol l0 ++ X) pv RVersion (g_method g) (S M) pe (g_version g) 0 =
     req_loop all X pl RHeader (g_method g) (S M) pe (g_version g) 1).
   { intros X. subst pl. destruct l0; cbn [eol app length].
-    - rewrite req_step_version_lf, Hvcode. replace (pv + 1) with (S pv) by lia. reflexivity.
-    - rewrite req_step_cr, req_step_version_lf, Hvcode. replace (pv + 2) with (S (S pv)) by lia. reflexivity. }
+    - rewrite req_step_version_lf, Hvcode. replace (pv + 1) with (S pv) by qlia. reflexivity.
+    - rewrite req_step_cr, req_step_version_lf, Hvcode. replace (pv + 2) with (S (S pv)) by qlia. reflexivity. }
   fold pe. fold pv. rewrite Hline.
   assert (HT : T = S (length target')) by (subst T; reflexivity).
-  assert (Hfin : forall h e, S pl + e = S (length (print_head_e l0 fl lb g)) -> h = hdr_fold [] (g_headers g) ->
+  assert (Hfin : forall h e, S pl + e = S (length (print_head_d l0 ds lb g)) -> h = hdr_fold [] (g_headers g) ->
      Ok (mk_scan (g_method g) (S M) pe (g_version g) h (S pl + e)) =
-     Ok (mk_scan (g_method g) (M + 1) (M + 1 + T) (g_version g) (hdr_fold [] (g_headers g)) (S (length (print_head_e l0 fl lb g))))).
-  { intros h e He ->. rewrite He. repeat f_equal; subst pe; lia. }
-  assert (Hpl : pl + length block = length (print_head_e l0 fl lb g)).
-  { rewrite print_head_e_length. fold block. rewrite Et. fold M. subst pl pv pe. cbn [length]. rewrite Hvl. lia. }
+     Ok (mk_scan (g_method g) (M + 1) (M + 1 + T) (g_version g) (hdr_fold [] (g_headers g)) (S (length (print_head_d l0 ds lb g))))).
+  { intros h e He ->. rewrite He. repeat f_equal; subst pe; qlia. }
+  assert (Hpl : pl + length block = length (print_head_d l0 ds lb g)).
+  { rewrite print_head_d_length. fold block. rewrite Et. fold M. subst pl pv pe. cbn [length]. rewrite Hvl. qlia. }
   destruct (g_headers g) as [|h hs] eqn:Eh.
-  - subst block. cbn [print_hlines_e app] in *. destruct lb; cbn [eol app length] in *.
-    + rewrite req_step_blank. replace (S (S pl)) with (S pl + 1) by lia. apply Hfin; [lia|reflexivity].
-    + rewrite req_step_cr, req_step_blank. replace (S (S (S pl))) with (S pl + 2) by lia. apply Hfin; [lia|reflexivity].
+  - subst block. cbn [print_hlines_d app] in *. destruct lb; cbn [eol app length] in *.
+    + rewrite req_step_blank. replace (S (S pl)) with (S pl + 1) by qlia. apply Hfin; [qlia|reflexivity].
+    + rewrite req_step_cr, req_step_blank. replace (S (S (S pl))) with (S pl + 2) by qlia. apply Hfin; [qlia|reflexivity].
   - assert (Hn : name_ok (hl_name h) = true).
     { cbn [hlines_ok forallb] in Hlines. apply andb_true_iff in Hlines as [Hh _]. apply andb_true_iff in Hh as [Hh _]. exact Hh. }
     assert (Hn' := Hn). unfold name_ok in Hn'. apply andb_true_iff in Hn' as [Hn' _]. apply andb_true_iff in Hn' as [Hnn Hnt].
     assert (Hblock : exists c brest, block ++ extra = c :: brest /\ tchar c = true).
-    { subst block. cbn [print_hlines_e]. unfold print_hline_e at 1. destruct (hl_name h) as [|c n']; [discriminate|].
+    { subst block. cbn [print_hlines_d]. unfold print_hline_d at 1. destruct (hl_name h) as [|c n']; [discriminate|].
       cbn [forallb] in Hnt. apply andb_true_iff in Hnt as [Hc _]. eexists. eexists. split; [|exact Hc].
       rewrite <- !app_assoc. cbn [app]. reflexivity. }
     destruct Hblock as [c [brest [Hb Hc]]]. rewrite Hb.
@@ -239,39 +317,39 @@ Proof.
     { rewrite Hall. repeat (progress (try rewrite <- !app_assoc; cbn [app])). reflexivity. }
     assert (Hlpre : pl = length (g_method g ++ SP :: (t0 :: target') ++ SP :: g_version g ++ eol l0)).
     { rewrite !app_length. cbn [length]. rewrite !app_length. cbn [length]. rewrite !app_length.
-      subst pl pv pe. fold M. lia. }
+      subst pl pv pe. fold M. qlia. }
     rewrite Hall2. rewrite (slice_chk_tail _ (block ++ extra) pl Hlpre).
     unfold parse_headers.
     assert (Hne : h :: hs <> []) by discriminate.
-    pose proof (hdr_block_e (h :: hs) fl lb [] extra 0 0 0 [] Hlines (or_introl Hne)) as Hhb.
+    pose proof (hdr_block_d (h :: hs) ds lb [] extra 0 0 0 [] Hlines Hdk (or_introl Hne)) as Hhb.
     cbn [length] in Hhb. change ([] ++ ?x) with x in Hhb. fold block in Hhb. rewrite Hhb.
-    apply Hfin; [cbn [Nat.add]; lia|reflexivity].
+    apply Hfin; [cbn [Nat.add]; qlia|reflexivity].
 Qed.
 
-Lemma parse_request_print_e https dh l0 fl lb g extra host auth path query :
-  greq_ok g = true -> g_host dh g = Some host -> parse_uri https host (g_target g) = Some (auth, path, query) ->
-  parse_request https dh (print_head_e l0 fl lb g ++ extra) =
+Lemma parse_request_print_d https dh l0 ds lb g extra host auth path query :
+  greq_ok g = true -> decos_ok ds (g_headers g) = true ->
+  g_host dh g = Some host -> parse_uri https host (g_target g) = Some (auth, path, query) ->
+  parse_request https dh (print_head_d l0 ds lb g ++ extra) =
   Ok (mk_request (g_method g) path query (if g_v11 g then 11%N else 10%N) (g_hmap g) auth extra).
 Proof.
-  intros Hok Hhost Huri. pose proof (greq_ok_facts g Hok) as F.
-  unfold parse_request. rewrite (req_loop_print_e l0 fl lb g extra F). cbn [obind].
-  destruct F as [Hstart Hmlen Hmtok Htnon Htplain Hlines Hnodup].
+  intros Hok Hdk Hhost Huri. pose proof (greq_ok_facts g Hok) as F.
+  unfold parse_request. rewrite (req_loop_print_d l0 ds lb g extra F Hdk). cbn [obind].
+  pose proof (method_ok_facts g F) as Hmok.
+  destruct F as [Hmnon Hmlen Hmtok Htnon Htplain Hlines Hnodup].
   destruct (version_shape g) as [_ [_ Hvcode]].
   unfold req_finish. cbn [sc_pe sc_ps sc_headers sc_method sc_ver sc_end].
   rewrite (hdr_fold_g g Hnodup).
-  assert (Htl : 0 < length (g_target g)) by (destruct (g_target g); [contradiction|cbn [length]; lia]).
+  assert (Htl : 0 < length (g_target g)) by (destruct (g_target g); [contradiction|cbn [length]; qlia]).
   destruct (Nat.leb (length (g_method g) + 1 + length (g_target g)) (length (g_method g) + 1)) eqn:E;
-    [apply Nat.leb_le in E; lia|].
+    [apply Nat.leb_le in E; qlia|].
   unfold g_host in Hhost. rewrite Hhost.
-  assert (Ht : slice_chk (length (g_method g) + 1) (length (g_method g) + 1 + length (g_target g)) (print_head_e l0 fl lb g ++ extra) = Ok (g_target g)).
-  { rewrite print_head_e_shape.
+  assert (Ht : slice_chk (length (g_method g) + 1) (length (g_method g) + 1 + length (g_target g)) (print_head_d l0 ds lb g ++ extra) = Ok (g_target g)).
+  { rewrite print_head_d_shape.
     change (g_method g ++ SP :: g_target g ++ ?x) with (g_method g ++ [SP] ++ g_target g ++ x).
-    rewrite app_assoc. apply slice_chk_mid; [rewrite app_length; cbn [length]; lia|reflexivity]. }
+    rewrite app_assoc. apply slice_chk_mid; [rewrite app_length; cbn [length]; qlia|reflexivity]. }
   rewrite Ht. cbn [obind].
-  assert (Hmok : method_ok (g_method g) = true).
-  { unfold method_ok. rewrite Hmtok. destruct (g_method g) eqn:Em; [exfalso; apply (valid_start_nonempty _ Hstart); reflexivity|reflexivity]. }
   rewrite Hmok. cbn [negb]. rewrite Huri, Hvcode.
-  rewrite (slice_chk_tail (print_head_e l0 fl lb g) extra (length (print_head_e l0 fl lb g)) eq_refl). cbn [obind]. reflexivity.
+  rewrite (slice_chk_tail (print_head_d l0 ds lb g) extra (length (print_head_d l0 ds lb g)) eq_refl). cbn [obind]. reflexivity.
 Qed.
 
 (** * Where such a head ends *)
@@ -283,7 +361,7 @@ Proof.
   cbn [forallb] in Hx. apply andb_true_iff in Hx as [Hc Hx]. destruct (no_crlf_spec _ Hc) as [H1 H2].
   cbn [app bl_end]. rewrite H1, H2. destruct x as [|c' x'].
   - cbn [app length]. destruct (bl_end false r); reflexivity.
-  - rewrite (IH false r Hx ltac:(discriminate)). destruct (bl_end false r); cbn [option_map length]; [f_equal; lia|reflexivity].
+  - rewrite (IH false r Hx ltac:(discriminate)). destruct (bl_end false r); cbn [option_map length]; [f_equal; qlia|reflexivity].
 Qed.
 
 Lemma bl_eol0 lf r : bl_end false (eol lf ++ r) = option_map (fun k => length (eol lf) + k) (bl_end true r).
@@ -300,46 +378,60 @@ Lemma bl_line_e x lf ir r : forallb no_crlf x = true -> x <> [] ->
   bl_end ir (x ++ eol lf ++ r) = option_map (fun k => length x + length (eol lf) + k) (bl_end true r).
 Proof.
   intros Hx Hne. rewrite bl_chunk by assumption. rewrite bl_eol0.
-  destruct (bl_end true r); cbn [option_map]; [f_equal; lia|reflexivity].
+  destruct (bl_end true r); cbn [option_map]; [f_equal; qlia|reflexivity].
 Qed.
 
-Lemma bl_block_e : forall hs fl lb rest, hlines_ok hs = true ->
-  bl_end true ((print_hlines_e fl hs ++ eol lb) ++ rest) = Some (length (print_hlines_e fl hs ++ eol lb)).
+Lemma hline_d_shape d h : name_ok (hl_name h) = true -> value_ok (hl_value h) = true -> deco_ok d h = true ->
+  let x := hl_name h ++ [COLON] ++ h_lead d h ++ hl_value h ++ d_post d in
+  print_hline_d d h = x ++ eol (d_lf d) /\ x <> [] /\ forallb no_crlf x = true.
 Proof.
-  induction hs as [|h hs IH]; intros fl lb rest Hok.
-  - cbn [print_hlines_e app]. apply bl_eol1.
-  - cbn [hlines_ok forallb] in Hok. apply andb_true_iff in Hok as [Hh Hok].
-    assert (Hh1 : hlines_ok [h] = true) by (cbn [hlines_ok forallb]; rewrite Hh; reflexivity).
-    destruct (hline_body_shape h Hh1) as [_ [Hne Hx]].
-    set (x := hl_name h ++ [COLON] ++ repeat SP (hl_sp h) ++ hl_value h) in *.
-    cbn [print_hlines_e].
-    replace (((print_hline_e (hd false fl) h ++ print_hlines_e (tl fl) hs) ++ eol lb) ++ rest)
-      with (x ++ eol (hd false fl) ++ ((print_hlines_e (tl fl) hs ++ eol lb) ++ rest))
-      by (unfold print_hline_e, x; rewrite <- !app_assoc; reflexivity).
-    rewrite bl_line_e by assumption. fold (hlines_ok hs) in Hok. rewrite (IH (tl fl) lb rest Hok). cbn [option_map]. f_equal.
-    unfold print_hline_e. subst x. repeat rewrite app_length. cbn [length]. lia.
+  intros Hn Hv Hd x. destruct (deco_ok_facts _ _ Hd) as [Hlead [Htrail _]].
+  split; [unfold x, print_hline_d, h_lead; rewrite <- !app_assoc; reflexivity|].
+  unfold name_ok in Hn. apply andb_true_iff in Hn as [Hn _]. apply andb_true_iff in Hn as [Hnn Hnt].
+  split; [subst x; destruct (hl_name h); [discriminate|discriminate]|].
+  subst x. rewrite !forallb_app. rewrite (forallb_imp tchar no_crlf _ tchar_no_crlf Hnt).
+  rewrite (ows_all_no_crlf _ Hlead), (value_ok_no_crlf _ Hv), (ows_all_no_crlf _ Htrail). reflexivity.
 Qed.
 
-Lemma blank_end_print_e l0 fl lb g rest : greq_facts g ->
-  blank_end (print_head_e l0 fl lb g ++ rest) = Some (length (print_head_e l0 fl lb g)).
+Lemma bl_block_d : forall hs ds lb rest, hlines_ok hs = true -> decos_ok ds hs = true ->
+  bl_end true ((print_hlines_d ds hs ++ eol lb) ++ rest) = Some (length (print_hlines_d ds hs ++ eol lb)).
 Proof.
-  intros F. destruct F as [Hstart Hmlen Hmtok Htnon Htplain Hlines Hnodup].
+  induction hs as [|h hs IH]; intros ds lb rest Hok Hdk.
+  - cbn [print_hlines_d app]. apply bl_eol1.
+  - cbn [hlines_ok forallb] in Hok. apply andb_true_iff in Hok as [Hh Hok]. apply andb_true_iff in Hh as [Hn Hv].
+    cbn [decos_ok] in Hdk. apply andb_true_iff in Hdk as [Hd Hdk].
+    destruct (hline_d_shape (hd deco0 ds) h Hn Hv Hd) as [Hp [Hne Hx]].
+    set (x := hl_name h ++ [COLON] ++ h_lead (hd deco0 ds) h ++ hl_value h ++ d_post (hd deco0 ds)) in *.
+    cbn [print_hlines_d]. rewrite Hp.
+    replace ((((x ++ eol (d_lf (hd deco0 ds))) ++ print_hlines_d (tl ds) hs) ++ eol lb) ++ rest)
+      with (x ++ eol (d_lf (hd deco0 ds)) ++ ((print_hlines_d (tl ds) hs ++ eol lb) ++ rest))
+      by (rewrite <- !app_assoc; reflexivity).
+    rewrite bl_line_e by assumption. fold (hlines_ok hs) in Hok. rewrite (IH (tl ds) lb rest Hok Hdk). cbn [option_map]. f_equal.
+    repeat rewrite app_length. qlia.
+Qed.
+
+Lemma blank_end_print_d l0 ds lb g rest : greq_facts g -> decos_ok ds (g_headers g) = true ->
+  blank_end (print_head_d l0 ds lb g ++ rest) = Some (length (print_head_d l0 ds lb g)).
+Proof.
+  intros F Hdk. destruct F as [Hmnon Hmlen Hmtok Htnon Htplain Hlines Hnodup].
   destruct (version_shape g) as [Hvc [Hvl _]].
-  unfold blank_end. rewrite print_head_e_shape, print_head_e_length.
+  unfold blank_end. rewrite print_head_d_shape, print_head_d_length.
   set (x := g_method g ++ SP :: g_target g ++ SP :: g_version g).
-  replace (g_method g ++ SP :: g_target g ++ SP :: g_version g ++ eol l0 ++ (print_hlines_e fl (g_headers g) ++ eol lb) ++ rest)
-    with (x ++ eol l0 ++ (print_hlines_e fl (g_headers g) ++ eol lb) ++ rest)
+  replace (g_method g ++ SP :: g_target g ++ SP :: g_version g ++ eol l0 ++ (print_hlines_d ds (g_headers g) ++ eol lb) ++ rest)
+    with (x ++ eol l0 ++ (print_hlines_d ds (g_headers g) ++ eol lb) ++ rest)
     by (unfold x; repeat (progress (try rewrite <- !app_assoc; cbn [app])); reflexivity).
   rewrite bl_line_e.
-  - rewrite (bl_block_e _ fl lb rest Hlines). cbn [option_map]. f_equal. unfold x.
-    rewrite !app_length. cbn [length]. rewrite !app_length. cbn [length]. rewrite Hvl. lia.
+  - rewrite (bl_block_d _ ds lb rest Hlines Hdk). cbn [option_map]. f_equal. unfold x.
+    rewrite !app_length. cbn [length]. rewrite !app_length. cbn [length]. rewrite Hvl. qlia.
   - unfold x. rewrite forallb_app. rewrite (forallb_imp tchar no_crlf _ tchar_no_crlf Hmtok). cbn [forallb andb].
     rewrite forallb_app. rewrite (forallb_imp plain no_crlf _ plain_no_crlf Htplain). cbn [forallb]. rewrite Hvc. reflexivity.
   - unfold x. destruct (g_method g); discriminate.
 Qed.
 
-Lemma valid_start_print_e l0 fl lb g rest : greq_facts g -> valid_start (print_head_e l0 fl lb g ++ rest) = true.
-Proof. intros F. rewrite print_head_e_shape. apply valid_start_app. exact (gf_start g F). Qed.
+Lemma valid_start_print_d l0 ds lb g rest : greq_facts g -> valid_start (print_head_d l0 ds lb g ++ rest) = true.
+Proof.
+  intros F. rewrite print_head_d_shape. apply valid_start_token; [exact (gf_mtok g F)|exact (gf_mlen g F)|exact (gf_mnon g F)].
+Qed.
 
 (** * Any head that the parser reads back: head, then body, for every schedule *)
 
@@ -357,34 +449,87 @@ Proof.
   set (stream := head ++ rest) in *. set (H := length head) in *.
   set (d := Nat.min (sum_sched sched) (length stream)).
   assert (Hls : length stream = H + length rest) by (unfold stream; rewrite app_length; reflexivity).
-  assert (Hd : H + need <= d) by lia.
-  assert (HdS : d <= length stream) by lia.
+  assert (Hd : H + need <= d) by qlia.
+  assert (HdS : d <= length stream) by qlia.
   assert (Hhs : head_spec max_len (firstn d stream) = Ok H).
-  { unfold head_spec, blank_end in *. rewrite (bl_end_firstn false stream H d Hbe) by lia.
-    destruct (Nat.leb H max_len) eqn:E; [|apply Nat.leb_gt in E; lia].
+  { unfold head_spec, blank_end in *. rewrite (bl_end_firstn false stream H d Hbe) by qlia.
+    destruct (Nat.leb H max_len) eqn:E; [|apply Nat.leb_gt in E; qlia].
     rewrite valid_start_prefix_stable; [rewrite Hvs; reflexivity|exact HdS|].
-    right. rewrite ctn_firstn, Hbe. apply Nat.leb_le. lia. }
+    right. rewrite ctn_firstn, Hbe. apply Nat.leb_le. qlia. }
   pose proof (serve_head grow Hg mode https dh max_len limit stream sched Hp) as Hs. cbv zeta in Hs. fold d in Hs.
   rewrite Hhs in Hs. destruct Hs as [c [r' [Hc1 [Hc2 [Hat Hs]]]]].
   assert (Hcd : c <= d) by (destruct Hat as [_ [_ [? _]]]; assumption).
   assert (Hbuf : firstn c stream = head ++ firstn (c - H) rest).
-  { unfold stream. rewrite firstn_app. fold H. rewrite firstn_all2 by (fold H; lia). reflexivity. }
+  { unfold stream. rewrite firstn_app. fold H. rewrite firstn_all2 by (fold H; qlia). reflexivity. }
   rewrite Hbuf in Hs. rewrite Hparse in Hs.
   cbn [obind q_early q_method q_headers] in Hs.
   pose proof (read_to_bytes_exact grow Hg mode (firstn (c - H) rest) (body_length method hm) limit stream d c r' Hat) as Hb.
   unfold body_spec in Hb. fold need in Hb.
-  assert (Hel : length (firstn (c - H) rest) = c - H) by (rewrite firstn_length; lia).
-  assert (Hdl : length (firstn (d - c) (skipn c stream)) = d - c) by (rewrite firstn_length, skipn_length; lia).
+  assert (Hel : length (firstn (c - H) rest) = c - H) by (rewrite firstn_length; qlia).
+  assert (Hdl : length (firstn (d - c) (skipn c stream)) = d - c) by (rewrite firstn_length, skipn_length; qlia).
   rewrite Hel, Hdl in Hb.
-  destruct (Nat.leb need (c - H + (d - c))) eqn:E; [|apply Nat.leb_gt in E; lia].
+  destruct (Nat.leb need (c - H + (d - c))) eqn:E; [|apply Nat.leb_gt in E; qlia].
   destruct Hb as [r'' [Hb _]]. rewrite Hb in Hs.
   eexists. split; [exact Hs|]. unfold observed. cbn [sv_body sv_request q_method q_path q_query q_version q_headers q_authority].
   f_equal. f_equal.
-  rewrite firstn_app_firstn by (rewrite Hel; lia).
+  rewrite firstn_app_firstn by (rewrite Hel; qlia).
   assert (Hsk : skipn c stream = skipn (c - H) rest).
-  { unfold stream. rewrite skipn_app. fold H. rewrite skipn_all2 by (fold H; lia). reflexivity. }
+  { unfold stream. rewrite skipn_app. fold H. rewrite skipn_all2 by (fold H; qlia). reflexivity. }
   rewrite Hsk, firstn_skipn. reflexivity.
 Qed.
+
+(** * The theorems: the general printer, then its instances *)
+
+Lemma parse_print_ows_lemma : forall grow mode https dh max_len limit l0 ds lb g rest sched e,
+  grow_ok grow -> sched_pos sched -> greq_ok g = true -> decos_ok ds (g_headers g) = true ->
+  length (print_head_d l0 ds lb g) <= max_len ->
+  expect https dh limit g rest = Some e ->
+  N.to_nat (N.min (body_length (g_method g) (g_hmap g)) limit) <= length rest ->
+  length (print_head_d l0 ds lb g) + N.to_nat (N.min (body_length (g_method g) (g_hmap g)) limit) <= sum_sched sched ->
+  exists sv, serve grow mode https dh max_len limit (print_head_d l0 ds lb g ++ rest) sched = Ok sv /\ observed sv = Some e.
+Proof.
+  intros grow mode https dh max_len limit l0 ds lb g rest sched e Hg Hp Hok Hdk Hmax Hex Hn1 Hn2.
+  destruct (expect_some _ _ _ _ _ _ Hex) as [host [auth [path [query [Hhost [Huri He]]]]]].
+  pose proof (greq_ok_facts g Hok) as F. rewrite He.
+  apply serve_printed; try assumption.
+  - apply blank_end_print_d; assumption.
+  - apply valid_start_print_d. exact F.
+  - intros extra. apply (parse_request_print_d https dh l0 ds lb g extra host auth path query Hok Hdk Hhost Huri).
+Qed.
+
+(** [print_head_e] and [print_head] are [print_head_d] without added whitespace *)
+Lemma print_hlines_e_d : forall hs fl, print_hlines_e fl hs = print_hlines_d (map deco_of_lf fl) hs.
+Proof.
+  induction hs as [|h hs IH]; intros fl; [reflexivity|]. cbn [print_hlines_e print_hlines_d].
+  rewrite IH. destruct fl as [|f fl]; cbn [map hd tl]; unfold print_hline_e, print_hline_d, deco0, deco_of_lf; cbn [d_pre d_post d_lf];
+    rewrite !app_nil_r; cbn [app]; reflexivity.
+Qed.
+
+Lemma decos_ok_lf : forall hs fl, decos_ok (map deco_of_lf fl) hs = true.
+Proof.
+  induction hs as [|h hs IH]; intros fl; [reflexivity|]. cbn [decos_ok].
+  assert (H1 : deco_ok (hd deco0 (map deco_of_lf fl)) h = true).
+  { destruct fl; cbn [map hd]; unfold deco_ok, deco0, deco_of_lf; cbn [d_pre d_post forallb null]; rewrite orb_true_r; reflexivity. }
+  rewrite H1. cbn [andb]. destruct fl as [|f fl]; cbn [map tl]; [apply (IH [])|apply IH].
+Qed.
+
+Lemma print_head_e_d l0 fl lb g : print_head_e l0 fl lb g = print_head_d l0 (map deco_of_lf fl) lb g.
+Proof. unfold print_head_e, print_head_d. rewrite print_hlines_e_d. reflexivity. Qed.
+
+Lemma parse_request_print_e https dh l0 fl lb g extra host auth path query :
+  greq_ok g = true -> g_host dh g = Some host -> parse_uri https host (g_target g) = Some (auth, path, query) ->
+  parse_request https dh (print_head_e l0 fl lb g ++ extra) =
+  Ok (mk_request (g_method g) path query (if g_v11 g then 11%N else 10%N) (g_hmap g) auth extra).
+Proof.
+  intros Hok Hhost Huri. rewrite print_head_e_d.
+  apply (parse_request_print_d https dh l0 (map deco_of_lf fl) lb g extra host auth path query Hok (decos_ok_lf _ _) Hhost Huri).
+Qed.
+
+Lemma parse_request_print https dh g extra host auth path query :
+  greq_ok g = true -> g_host dh g = Some host -> parse_uri https host (g_target g) = Some (auth, path, query) ->
+  parse_request https dh (print_head g ++ extra) =
+  Ok (mk_request (g_method g) path query (if g_v11 g then 11%N else 10%N) (g_hmap g) auth extra).
+Proof. rewrite <- print_head_e_crlf. apply parse_request_print_e. Qed.
 
 Lemma parse_print_lf_lemma : forall grow mode https dh max_len limit l0 fl lb g rest sched e,
   grow_ok grow -> sched_pos sched -> greq_ok g = true -> length (print_head_e l0 fl lb g) <= max_len ->
@@ -393,11 +538,56 @@ Lemma parse_print_lf_lemma : forall grow mode https dh max_len limit l0 fl lb g 
   length (print_head_e l0 fl lb g) + N.to_nat (N.min (body_length (g_method g) (g_hmap g)) limit) <= sum_sched sched ->
   exists sv, serve grow mode https dh max_len limit (print_head_e l0 fl lb g ++ rest) sched = Ok sv /\ observed sv = Some e.
 Proof.
-  intros grow mode https dh max_len limit l0 fl lb g rest sched e Hg Hp Hok Hmax Hex Hn1 Hn2.
-  destruct (expect_some _ _ _ _ _ _ Hex) as [host [auth [path [query [Hhost [Huri He]]]]]].
-  pose proof (greq_ok_facts g Hok) as F. rewrite He.
-  apply serve_printed; try assumption.
-  - apply blank_end_print_e. exact F.
-  - apply valid_start_print_e. exact F.
-  - intros extra. apply (parse_request_print_e https dh l0 fl lb g extra host auth path query Hok Hhost Huri).
+  intros grow mode https dh max_len limit l0 fl lb g rest sched e Hg Hp Hok. rewrite print_head_e_d. intros Hmax Hex Hn1 Hn2.
+  apply parse_print_ows_lemma; try assumption. apply decos_ok_lf.
+Qed.
+
+Lemma parse_print_lemma : forall grow mode https dh max_len limit g rest sched e,
+  grow_ok grow -> sched_pos sched -> greq_ok g = true -> length (print_head g) <= max_len ->
+  expect https dh limit g rest = Some e ->
+  N.to_nat (N.min (body_length (g_method g) (g_hmap g)) limit) <= length rest ->
+  length (print_head g) + N.to_nat (N.min (body_length (g_method g) (g_hmap g)) limit) <= sum_sched sched ->
+  exists sv, serve grow mode https dh max_len limit (print_head g ++ rest) sched = Ok sv /\ observed sv = Some e.
+Proof. intros grow mode https dh max_len limit g. rewrite <- print_head_e_crlf. apply parse_print_lf_lemma. Qed.
+
+Lemma schedule_independent_lemma : forall grow1 grow2 mode1 mode2 https dh max_len limit g rest sched1 sched2,
+  grow_ok grow1 -> grow_ok grow2 -> sched_pos sched1 -> sched_pos sched2 ->
+  greq_ok g = true -> length (print_head g) <= max_len ->
+  expect https dh limit g rest <> None ->
+  N.to_nat (N.min (body_length (g_method g) (g_hmap g)) limit) <= length rest ->
+  length (print_head g) + N.to_nat (N.min (body_length (g_method g) (g_hmap g)) limit) <= sum_sched sched1 ->
+  length (print_head g) + N.to_nat (N.min (body_length (g_method g) (g_hmap g)) limit) <= sum_sched sched2 ->
+  exists sv1 sv2,
+    serve grow1 mode1 https dh max_len limit (print_head g ++ rest) sched1 = Ok sv1 /\
+    serve grow2 mode2 https dh max_len limit (print_head g ++ rest) sched2 = Ok sv2 /\
+    observed sv1 = observed sv2 /\ observed sv1 <> None.
+Proof.
+  intros grow1 grow2 mode1 mode2 https dh max_len limit g rest sched1 sched2 Hg1 Hg2 Hp1 Hp2 Hok Hmax Hex Hn H1 H2.
+  destruct (expect https dh limit g rest) as [e|] eqn:He; [|contradiction].
+  destruct (parse_print_lemma grow1 mode1 https dh max_len limit g rest sched1 e Hg1 Hp1 Hok Hmax He Hn H1) as [sv1 [Hs1 Ho1]].
+  destruct (parse_print_lemma grow2 mode2 https dh max_len limit g rest sched2 e Hg2 Hp2 Hok Hmax He Hn H2) as [sv2 [Hs2 Ho2]].
+  exists sv1, sv2. repeat split; try assumption; [congruence|rewrite Ho1; discriminate].
+Qed.
+
+(** the same request sent with two different spellings of its optional whitespace and line ends, cut in two
+    different ways, is the same request to a handler *)
+Lemma ows_independent_lemma : forall grow1 grow2 mode1 mode2 https dh max_len limit l0 l0' ds ds' lb lb' g rest sched1 sched2,
+  grow_ok grow1 -> grow_ok grow2 -> sched_pos sched1 -> sched_pos sched2 ->
+  greq_ok g = true -> decos_ok ds (g_headers g) = true -> decos_ok ds' (g_headers g) = true ->
+  length (print_head_d l0 ds lb g) <= max_len -> length (print_head_d l0' ds' lb' g) <= max_len ->
+  expect https dh limit g rest <> None ->
+  N.to_nat (N.min (body_length (g_method g) (g_hmap g)) limit) <= length rest ->
+  length (print_head_d l0 ds lb g) + N.to_nat (N.min (body_length (g_method g) (g_hmap g)) limit) <= sum_sched sched1 ->
+  length (print_head_d l0' ds' lb' g) + N.to_nat (N.min (body_length (g_method g) (g_hmap g)) limit) <= sum_sched sched2 ->
+  exists sv1 sv2,
+    serve grow1 mode1 https dh max_len limit (print_head_d l0 ds lb g ++ rest) sched1 = Ok sv1 /\
+    serve grow2 mode2 https dh max_len limit (print_head_d l0' ds' lb' g ++ rest) sched2 = Ok sv2 /\
+    observed sv1 = observed sv2 /\ observed sv1 <> None.
+Proof.
+  intros grow1 grow2 mode1 mode2 https dh max_len limit l0 l0' ds ds' lb lb' g rest sched1 sched2
+         Hg1 Hg2 Hp1 Hp2 Hok Hd Hd' Hmax Hmax' Hex Hn H1 H2.
+  destruct (expect https dh limit g rest) as [e|] eqn:He; [|contradiction].
+  destruct (parse_print_ows_lemma grow1 mode1 https dh max_len limit l0 ds lb g rest sched1 e Hg1 Hp1 Hok Hd Hmax He Hn H1) as [sv1 [Hs1 Ho1]].
+  destruct (parse_print_ows_lemma grow2 mode2 https dh max_len limit l0' ds' lb' g rest sched2 e Hg2 Hp2 Hok Hd' Hmax' He Hn H2) as [sv2 [Hs2 Ho2]].
+  exists sv1, sv2. repeat split; try assumption; [congruence|rewrite Ho1; discriminate].
 Qed.
